@@ -357,6 +357,17 @@ func specPositionAt(start *aboard, ops []c12Op, n int, c tak.Color) (*aboard, bo
 	return nil, false // beyond the recorded game
 }
 
+// the L1 text of a rules-oracle board, in the format of encAbs
+func c12EncAboard(a *aboard) string {
+	sq := make([]string, 0, a.n*a.n)
+	for y := 0; y < a.n; y++ {
+		for x := 0; x < a.n; x++ {
+			sq = append(sq, encSquare(a.sq[y][x]))
+		}
+	}
+	return fmt.Sprintf("%d %d %d %d %d %d %s", a.n, a.ws, a.wc, a.bs, a.bc, a.ply, strings.Join(sq, ","))
+}
+
 var c12DefaultReserves = map[int][2]int{3: {10, 0}, 4: {15, 0}, 5: {21, 1}, 6: {30, 1}, 7: {40, 2}, 8: {50, 2}}
 
 func c12EmptyBoard(n int) *aboard {
@@ -404,7 +415,7 @@ func c12Oracle(c *ctx, g *c12Game, input string, o *c12Obs, qs []c12Query) {
 			want = "ERR"
 		default:
 			if a, ok := specPositionAt(g.start, g.ops, q.n, q.c); ok {
-				want = "OK " + encAbsBoard(a)
+				want = "OK " + c12EncAboard(a)
 			} else {
 				want = "ERR"
 			}
@@ -447,7 +458,7 @@ func c12SpecReplay(start *aboard, ops []c12Op) string {
 	if !ok {
 		return "ERR"
 	}
-	return "OK " + encAbsBoard(a)
+	return "OK " + c12EncAboard(a)
 }
 
 // ---------- generators ----------
@@ -941,7 +952,7 @@ func runC12(c *ctx) {
 	for _, v := range []string{"9", "2", "0", "-1", "12", "255", "256", "4294967299"} {
 		c12EmitText(c, []byte("[Size \""+v+"\"]\n\n1. a1 b1\n"), "size-tag", true, qs)
 	}
-	games := 700 * c.scale
+	games := 1500 * c.scale
 	for i := 0; i < games; i++ {
 		g := c12GenGame(c)
 		c12EmitGame(c, g, i < 4)
